@@ -50,7 +50,9 @@ def doc_for(c):
         props[v] = {"type": "string"}
     elif p == "extkey":
         d["x-" + v] = "value"
-    txt = json.dumps(d, ensure_ascii=False)
+    # keys in sorted order, as in the YAML rendering made by `vh to-yaml`: for the options that record the
+    # order of properties, the two renderings must list them in one order
+    txt = json.dumps(d, ensure_ascii=False, sort_keys=True)
     if c["num"]:
         txt = txt.replace('"@@NUM@@"', NUM[c["cls"]])
     return txt
@@ -69,9 +71,13 @@ def check(run, replay=None):
     rnd = random.Random(run.seed)
     if run.tier == "quick":
         # every class at every position under flatten; the other commands on a seeded third
-        cases = [c for c in cases if c["cmd"] == "flatten" or c["cmd"] == "init" or rnd.random() < (0.12 if c["cmd"] == "genspec" else 0.3)]
+        cases = [c for c in cases if c["cmd"] == "flatten" or c["cmd"] == "init" or rnd.random() < (0.12 if c["cmd"] == "genspec" else 0.15)]
     else:
         cases = [c for c in cases if c["cmd"] != "genspec" or rnd.random() < 0.4]
+    # every command variant at least with a plain and an ambiguous string and a number
+    allc = sorted((e for t, e in gen["emitted"] if t == "CASE"), key=lambda c: json.dumps(c, sort_keys=True))
+    must = [c for c in allc if c["cls"] in ("int_like", "multiline", "float_1e21") and c["pos"] in ("default", "extension", "propname")]
+    cases += [c for c in must if c not in cases]
     pkg = run.scratch_module("emptypkg", modname="scratch/emptypkg")
     open(os.path.join(pkg, "main.go"), "w").write("// Package main has no swagger annotations.\npackage main\n\nfunc main() {}\n")
     mixp = run.path("mix.json"); json.dump(MIX, open(mixp, "w"))
@@ -113,8 +119,18 @@ def check(run, replay=None):
                 op = os.path.join(wd, "out-%s-%s%s.%s" % (inf, of, "-c" if compact else "", ext))
                 if c["cmd"] in ("flatten", "expand"):
                     cmd = [swagger, c["cmd"], ip, "-o", op, "--format", of]
+                elif c["cmd"] == "flatten_full":
+                    cmd = [swagger, "flatten", ip, "-o", op, "--format", of, "--with-flatten=full"]
+                elif c["cmd"] == "flatten_unused":
+                    cmd = [swagger, "flatten", ip, "-o", op, "--format", of, "--with-flatten=remove-unused"]
                 elif c["cmd"] == "mixin":
                     cmd = [swagger, "mixin", ip, mixp, "-o", op, "--format", of]
+                elif c["cmd"] == "mixin_keeporder":
+                    cmd = [swagger, "mixin", ip, mixp, "-o", op, "--format", of, "--keep-spec-order"]
+                elif c["cmd"] == "mixin_sec":
+                    cmd = [swagger, "mixin", mixp, ip, "-o", op, "--format", of]
+                elif c["cmd"] == "mixin_sec_keeporder":
+                    cmd = [swagger, "mixin", mixp, ip, "-o", op, "--format", of, "--keep-spec-order"]
                 else:
                     cmd = [swagger, "generate", "spec", "-w", pkg, "-i", ip, "-o", op]
                 if compact:
@@ -146,6 +162,8 @@ def check(run, replay=None):
     cov = dict(states=mc["states"] + gen["states"], transitions=mc["transitions"] + gen["transitions"], traces_validated_against_impl=len(events),
                evaluations=nruns, distinct_nontrivial=len(events), cli_runs=nruns, skipped_inputs=len(skipped),
                skipped_classes=sorted({s["case"]["cls"] + "@" + s["case"]["pos"] for s in skipped})[:40],
-               rule="scalar content class (43 ambiguous strings, 7 edge numbers) x position x command {flatten, expand, mixin, generate spec, init spec}; per case the runs {json,yaml} input x {json,yaml} output + compact json",
+               rule="scalar content class (43 ambiguous strings, 7 edge numbers) x position x command {flatten [minimal, full, remove-unused], expand, mixin [primary/secondary x keep-spec-order], generate spec, init spec}; per case the runs {json,yaml} input x {json,yaml} output + compact json",
                samples=[e["case"] for e in events[:3]], rejected_events=len(seen))
+    import frame_family
+    fv, fcov = frame_family.frame_stage(run); run.violations += fv; cov.update(fcov)
     return finish(run, "model_checking", cov, ASSUME)
